@@ -26,7 +26,8 @@ class C04(c01.C01):
                          'retry_after_market_refusal.judged',
                          'models.judged.with_getter_results_emptied_by_the_caller',
                          'portfolio_only_model.second_run_on_same_objects.judged',
-                         'buyer_declared_through_the_string_api.judged')
+                         'buyer_declared_through_the_string_api.judged',
+                         'models.judged.with_numeric_portfolio_weights_overridden_by_a_path')
     which = ('markets', 'ledger')
 
     def make_case(self, rng, idx, tier):
